@@ -16,19 +16,19 @@ CITIES = [(51.4733, -0.0008333), (28.61, 77.22), (35.68, 139.69), (-13.83, -171.
 
 def rand_lat(rng, polar=True):
     k = rng.random()
-    if k < 0.40:
+    if k < 0.55:
         return rng.uniform(-66, 66)
-    if k < 0.52:
+    if k < 0.65:
         return rng.choice([-1, 1]) * (66.56 + rng.uniform(-1, 1))
-    if k < 0.64:
+    if k < 0.77:
         return rng.choice([-1, 1]) * (rng.choice([48.5, 54.5, 60.5]) + rng.uniform(-0.5, 0.5))
-    if k < 0.74:
+    if k < 0.84:
         return rng.choice([-1, 1]) * rng.uniform(66, 85)
     if not polar:
         return rng.uniform(-70, 70)
-    if k < 0.86:
+    if k < 0.91:
         return rng.choice([-1, 1]) * rng.uniform(85, 89.8)
-    if k < 0.94:
+    if k < 0.96:
         return rng.choice([-1, 1]) * rng.uniform(89.8, 90)
     return rng.choice([0.0, 90.0, -90.0, 89.8, -89.8, 89.80000000000001])
 
